@@ -609,7 +609,8 @@ CheckStripeX(C, fs, par, p, present0, ext) ==
         \* stamp of the recorded file, at the same offset, and are taken only if they match the hash
         \* (state_search_array / state_search_fetch, search.c; not in audit-only mode)
         allfs == UNION {{<<e, m>> : m \in DOMAIN fs[e]} : e \in D}
-        cand == {fs[x[1]][x[2]] : x \in allfs} \cup ext.stamp
+        \* ... unless check / fix is run with --force-nocopy (ext.nocopy): then only what -i offers
+        cand == (IF "nocopy" \in DOMAIN ext /\ ext.nocopy THEN {} ELSE {fs[x[1]][x[2]] : x \in allfs}) \cup ext.stamp
         fetched == IF present0 = {} THEN {} ELSE
                    {d \in bad : blk[d].st \in {"BLK", "REP"} /\
                        (\/ \E g \in cand : LET rec == C.cf[d][blk[d].n]
@@ -699,7 +700,8 @@ FixRangeStripesA(C0, fs, par, present, rng, ext, act) ==
     IN Eager([p \in 0..(AllocatedMax(C) - 1) |->
               IF p \in need
               THEN CheckStripeX(C, fs, par, p, present,
-                                [ext EXCEPT !.stamp = @ \cup {FsAfter(C0, fs, R1, rng, p, act)[x[1]][x[2]] :
+                                [ext EXCEPT !.stamp = IF "nocopy" \in DOMAIN ext /\ ext.nocopy THEN @ ELSE
+                                                      @ \cup {FsAfter(C0, fs, R1, rng, p, act)[x[1]][x[2]] :
                                                                  x \in UNION {{<<e, m>> : m \in DOMAIN fs[e]} : e \in D}}])
               ELSE R1[p]])
 FixRangeStripes(C0, fs, par, present, rng, ext) ==
